@@ -453,15 +453,18 @@ pub struct C07Case {
     pub depth: u8,
     pub reversed: bool,
     /// body option bits: 1 = set r6-r9 in every function, 2 = stack tag at [r10-8] written and read back,
-    /// 4 = also touch the lowest slot of the frame, 8 = helper call inside every function
+    /// 4 = also touch the lowest slot of the frame, 8 = helper call inside every function,
+    /// 16 = only the two outermost functions touch the stack (deeper frames lie below the 512 bytes
+    /// but are never accessed), 32 = r6-r9 are written by 32-bit ALU instructions only
     pub body: u8,
     pub calc: Calc,
     pub recursive: bool,
     pub vsel: u8,
     /// every non-leaf function calls its callee twice (a second call after the first returned)
     pub twice: bool,
-    /// a packet load (ldabsb) is the instruction immediately before every local call
-    pub ld_before_call: bool,
+    /// a packet load is the instruction immediately before every local call: 0 none, 1..=8 =
+    /// ldabsb, ldabsh, ldabsw, ldabsdw, ldindb, ldindh, ldindw, ldinddw
+    pub ld_before_call: u8,
     /// the VM is created with another program, the calculator is registered, and only then the
     /// program under test is loaded with set_program
     /// 0: program given to new(); 1: another program first, then the calculator, then set_program;
@@ -525,16 +528,25 @@ pub fn c07_program(c: &C07Case) -> Vec<I> {
             f.push(isa::sub64r(5, 10));
             f.push(isa::add64r(0, 5));
         }
+        let stack_here = c.body & 16 == 0 || i <= 1;
         if c.body & 1 != 0 {
-            f.push(isa::mov64i(6, 0x60 + i as i32));
-            f.push(isa::mov64i(7, 0x70 + i as i32));
-            f.push(isa::mov64r(8, 4));
-            f.push(isa::mov64i(9, 0x90 + i as i32));
+            if c.body & 32 != 0 {
+                f.push(I::new(0xb4, 6, 0, 0, 0x60 + i as i32)); // mov32 imm
+                f.push(I::new(0xb4, 7, 0, 0, 0x70 + i as i32));
+                f.push(I::new(0xbc, 8, 4, 0, 0)); // mov32 r8, r4
+                f.push(I::new(0xb4, 9, 0, 0, 0x90 + i as i32));
+                f.push(I::new(0x04, 9, 0, 0, 1)); // add32 r9, 1
+            } else {
+                f.push(isa::mov64i(6, 0x60 + i as i32));
+                f.push(isa::mov64i(7, 0x70 + i as i32));
+                f.push(isa::mov64r(8, 4));
+                f.push(isa::mov64i(9, 0x90 + i as i32));
+            }
         }
-        if c.body & 2 != 0 {
+        if c.body & 2 != 0 && stack_here {
             f.push(isa::stdw(10, -8, tag));
         }
-        if c.body & 4 != 0 {
+        if c.body & 4 != 0 && stack_here {
             let fs = calc_value(c.calc, 0).min(512) as i16; // lowest slot of a default-size frame
             if fs >= 16 {
                 f.push(isa::stdw(10, -fs, tag + 0x1000));
@@ -556,12 +568,18 @@ pub fn c07_program(c: &C07Case) -> Vec<I> {
         if i < d {
             f.push(isa::mov64r(5, 10));
             f.push(isa::mov64r(3, 4)); // r3 passes through the call: checked by the callee's use of r4/r3
-            if c.ld_before_call {
+            if c.ld_before_call != 0 {
                 f.push(isa::mov64r(9, 0)); // accumulator saved in a callee-saved register
-                f.push(I::new(0x30, 0, 0, 0, 0)); // ldabsb 0 -> r0
+                let opc = [0x30u8, 0x28, 0x20, 0x38, 0x50, 0x48, 0x40, 0x58][(c.ld_before_call - 1) as usize];
+                if opc & 0xe0 == 0x40 {
+                    f.push(isa::mov64i(2, 1));
+                    f.push(I::new(opc, 0, 2, 0, 0)); // ldind* r2, 0 -> r0
+                } else {
+                    f.push(I::new(opc, 0, 0, 0, 0)); // ldabs* 0 -> r0
+                }
             }
             f.push(isa::call_local(0)); // patched
-            if c.ld_before_call {
+            if c.ld_before_call != 0 {
                 f.push(isa::add64r(0, 9));
             }
             // after return: r0..r5 are as the callee left them; fold callee-saved and own stack
@@ -578,7 +596,7 @@ pub fn c07_program(c: &C07Case) -> Vec<I> {
             f.push(isa::add64r(0, 8));
             f.push(isa::add64r(0, 9));
         }
-        if c.body & 2 != 0 {
+        if c.body & 2 != 0 && stack_here {
             f.push(isa::ldxdw(2, 10, -8));
             f.push(isa::add64r(0, 2));
         }
@@ -627,8 +645,8 @@ fn c07_check(s: &mut Sink, eng: Eng, c: &C07Case) {
     let class = format!("{}{}{}", if c.recursive { "recursion" } else if c.twice { "tree" } else { "chain" }, if c.reversed { "-backward" } else { "" }, match c.calc { Calc::None => "", Calc::PcDep => "+calc(pc)", Calc::ProgDep => "+calc(prog)", Calc::Const(_) => "+calc" });
     s.count("evaluations", 1);
     s.count("states", 1);
-    let kind = if c.ld_before_call { VmKind::Raw } else { VmKind::NoData };
-    let packet: Vec<u8> = if c.ld_before_call { vec![7, 1, 2, 3, 4, 5, 6, 7, 8, 9, 10, 11, 12, 13, 14, 15] } else { vec![] };
+    let kind = if c.ld_before_call != 0 { VmKind::Raw } else { VmKind::NoData };
+    let packet: Vec<u8> = if c.ld_before_call != 0 { vec![7, 1, 2, 3, 4, 5, 6, 7, 8, 9, 10, 11, 12, 13, 14, 15] } else { vec![] };
     let pbuf = Buf::new(packet.len(), 0);
     pbuf.fill(&packet);
     let mut m = isaeng::model_for(&prog, kind, &packet, &[], true);
@@ -682,7 +700,7 @@ fn c07_check(s: &mut Sink, eng: Eng, c: &C07Case) {
             return;
         }
     }
-    let mem = if c.ld_before_call { pbuf.raw() } else { vm::empty_raw() };
+    let mem = if c.ld_before_call != 0 { pbuf.raw() } else { vm::empty_raw() };
     rbpf::verif_hooks::set_insn_budget(Some(m.steps * 2 + 1000));
     let io = Obs { out: vmx.exec_out(Eng::Interp, mem, vm::empty_raw()), packet: pbuf.bytes().to_vec(), mbuff: vec![] };
     rbpf::verif_hooks::set_insn_budget(None);
@@ -745,17 +763,28 @@ fn c07_cases(thorough: bool) -> Vec<C07Case> {
                 for calc in &calcs {
                     let vs: Vec<u8> = if thorough { (0..31).collect() } else { vec![1, 22, 28] };
                     for vsel in vs {
-                        v.push(C07Case { depth, reversed, body, calc: *calc, recursive: false, vsel, twice: false, ld_before_call: false, reload: 0 });
+                        v.push(C07Case { depth, reversed, body, calc: *calc, recursive: false, vsel, twice: false, ld_before_call: 0, reload: 0 });
                         if depth >= 1 && depth <= 4 && (thorough || vsel == 1) {
-                            v.push(C07Case { depth, reversed, body, calc: *calc, recursive: false, vsel, twice: true, ld_before_call: false, reload: 0 });
+                            v.push(C07Case { depth, reversed, body, calc: *calc, recursive: false, vsel, twice: true, ld_before_call: 0, reload: 0 });
                         }
                         if depth >= 1 && (thorough || vsel == 1) {
                             // loaded with set_program after the calculator was registered
-                            v.push(C07Case { depth, reversed, body, calc: *calc, recursive: false, vsel, twice: false, ld_before_call: false, reload: 1 });
-                            v.push(C07Case { depth, reversed, body, calc: *calc, recursive: false, vsel, twice: false, ld_before_call: false, reload: 2 });
+                            v.push(C07Case { depth, reversed, body, calc: *calc, recursive: false, vsel, twice: false, ld_before_call: 0, reload: 1 });
+                            v.push(C07Case { depth, reversed, body, calc: *calc, recursive: false, vsel, twice: false, ld_before_call: 0, reload: 2 });
                             // a packet load right before every call (bodies that leave r9 free)
                             if body & 9 == 0 {
-                                v.push(C07Case { depth, reversed, body, calc: *calc, recursive: false, vsel, twice: depth <= 3, ld_before_call: true, reload: 0 });
+                                for ld in 1..=8u8 {
+                                    v.push(C07Case { depth, reversed, body, calc: *calc, recursive: false, vsel, twice: depth <= 3, ld_before_call: ld, reload: 0 });
+                                }
+                            }
+                            // deep chains whose inner frames are never touched; callee-saved registers
+                            // written by 32-bit instructions only
+                            if body & 12 == 0 && body & 3 != 0 {
+                                v.push(C07Case { depth, reversed, body: body | 16, calc: *calc, recursive: false, vsel, twice: false, ld_before_call: 0, reload: 0 });
+                                v.push(C07Case { depth, reversed, body: body | 16, calc: *calc, recursive: false, vsel, twice: depth <= 3, ld_before_call: 0, reload: 0 });
+                            }
+                            if body & 8 == 0 && body & 1 != 0 {
+                                v.push(C07Case { depth, reversed, body: body | 32, calc: *calc, recursive: false, vsel, twice: depth <= 3, ld_before_call: 0, reload: 0 });
                             }
                         }
                     }
@@ -764,7 +793,7 @@ fn c07_cases(thorough: bool) -> Vec<C07Case> {
         }
         for body in 0..4u8 {
             for calc in &calcs {
-                v.push(C07Case { depth, reversed: true, body, calc: *calc, recursive: true, vsel: 5, twice: false, ld_before_call: false, reload: 0 });
+                v.push(C07Case { depth, reversed: true, body, calc: *calc, recursive: true, vsel: 5, twice: false, ld_before_call: 0, reload: 0 });
             }
         }
     }
@@ -816,7 +845,7 @@ pub fn replay_c07(v: &Value) -> Vec<String> {
         Value::String(_) => Calc::PcDep,
         x => Calc::Const(x.as_u64().unwrap() as u16),
     };
-    let c = C07Case { depth: v["depth"].as_u64().unwrap() as u8, reversed: v["reversed"].as_bool().unwrap(), body: v["body"].as_u64().unwrap() as u8, calc, recursive: v["recursive"].as_bool().unwrap(), vsel: v["vsel"].as_u64().unwrap() as u8, twice: v["twice"].as_bool().unwrap_or(false), ld_before_call: v["ld_before_call"].as_bool().unwrap_or(false), reload: v["reload"].as_u64().unwrap_or(if v["reload"].as_bool().unwrap_or(false) { 1 } else { 0 }) as u8 };
+    let c = C07Case { depth: v["depth"].as_u64().unwrap() as u8, reversed: v["reversed"].as_bool().unwrap(), body: v["body"].as_u64().unwrap() as u8, calc, recursive: v["recursive"].as_bool().unwrap(), vsel: v["vsel"].as_u64().unwrap() as u8, twice: v["twice"].as_bool().unwrap_or(false), ld_before_call: v["ld_before_call"].as_u64().unwrap_or(if v["ld_before_call"].as_bool().unwrap_or(false) { 1 } else { 0 }) as u8, reload: v["reload"].as_u64().unwrap_or(if v["reload"].as_bool().unwrap_or(false) { 1 } else { 0 }) as u8 };
     let mut s = Sink::new("replay", Tier::Quick, 0, 1, None, None, 3600);
     let rp = v.clone();
     run_group(&mut s, eng, "local-call", &rp, move |cs| c07_check(cs, eng, &c));
